@@ -1,0 +1,9 @@
+//go:build verif
+
+// Contracts for the deductive checks in /verif (structured comments only; this file declares nothing).
+package serviceprovider
+
+//@ func serviceprovider.NewServiceProvider
+//@   inline
+//@   property C09
+//@   requires config != nil
